@@ -111,6 +111,10 @@ pub struct Case09L {
     pub odd_every: u8,
     /// 0 default, 1 consise, 2 pretty
     pub style: u8,
+    /// rows arrive in runs of consecutive equal keys (lengths 1, 2, 3, 511..513, 1023..1025 and
+    /// random ones) instead of independently drawn keys
+    #[serde(default)]
+    pub runs: bool,
 }
 
 pub struct C09Large;
@@ -124,8 +128,8 @@ impl Check for C09Large {
     }
     fn strategy(&self, t: Tier) -> BoxedStrategy<Case09L> {
         let max_n: u32 = t.pick(6_000, 70_000);
-        (prop_oneof![3 => 1_030u32..3_000, 1 => 3_000u32..max_n, 1 => 100u32..1_030], any::<u64>(), prop_oneof![Just(3u32), Just(17), Just(50), Just(1_000), 1_024u32..5_000], prop::bool::weighted(0.3), prop_oneof![Just(0u8), 2u8..30], 0u8..3)
-            .prop_map(|(n, seed, nkeys, merge, odd_every, style)| Case09L { n, seed, nkeys, merge, odd_every, style })
+        (prop_oneof![3 => 1_030u32..3_000, 1 => 3_000u32..max_n, 1 => 100u32..1_030], any::<u64>(), prop_oneof![Just(3u32), Just(17), Just(50), Just(1_000), 1_024u32..5_000], prop::bool::weighted(0.3), prop_oneof![Just(0u8), 2u8..30], 0u8..3, prop::bool::weighted(0.4))
+            .prop_map(|(n, seed, nkeys, merge, odd_every, style, runs)| Case09L { n, seed, nkeys, merge, odd_every, style, runs })
             .boxed()
     }
     fn check(&self, c: &Case09L) -> CaseResult {
@@ -142,9 +146,19 @@ impl Check for C09Large {
         let mut groups: Vec<Vec<RVal>> = Vec::new();
         let mut all: Vec<RVal> = Vec::new();
         let mut dropped = 0usize;
+        let (mut run_key, mut run_left) = (0u64, 0u64);
         for i in 0..c.n {
-            let h = next();
-            let odd = c.odd_every > 0 && (h >> 40) % c.odd_every as u64 == 0;
+            let mut h = next();
+            if c.runs {
+                if run_left == 0 {
+                    run_key = h % c.nkeys.max(1) as u64;
+                    run_left = [1u64, 2, 3, 511, 512, 513, 1023, 1024, 1025, 1 + (h >> 12) % 300, 1 + (h >> 12) % 40][((h >> 32) % 11) as usize];
+                }
+                run_left -= 1;
+                // same key for the whole run (the low bits of h choose the key below)
+                h = (h / c.nkeys.max(1) as u64) * c.nkeys.max(1) as u64 + run_key;
+            }
+            let odd = !c.runs && c.odd_every > 0 && (h >> 40) % c.odd_every as u64 == 0;
             let row = if odd {
                 match (h >> 50) % 4 {
                     0 => format!("{{\"i\":{}}}", i),
@@ -216,6 +230,7 @@ impl Check for C09Large {
                 .class(if c.merge { "merge" } else { "group_by" })
                 .class_if(nk >= 500, "five_hundred_keys_or_more")
                 .class_if(dropped > 0, "non_string_or_absent_key_dropped")
+                .class_if(c.runs, "runs_of_equal_keys")
                 .class_if(c.n > 65_536, "more_than_65536_rows")
                 .obs(json!({"rows": c.n, "keys": nk, "stdout_bytes": out.stdout.len()})),
         )
@@ -223,7 +238,7 @@ impl Check for C09Large {
 }
 
 pub fn run_all(ctx: &mut Ctx) {
-    ctx.rule = "0..40 records whose group key ranges over strings (incl. \"\", non-ASCII, escaped spellings, numeric-looking), numbers, null, true, [], {} and absent x upstream split/filter/select/unique/sort/skip/take x json (3 styles) or text output; oracle: exactly one output row, equal to the documented grouping (first-seen string keys, arrival order, non-string/absent dropped) of the rows the same run prints without --group-by/--merge. non-trivial (group-by) = >= 2 distinct string keys, a repeated key and a dropped row; (merge) = >= 2 rows behind at least one upstream stage; empty inputs are generated explicitly (class empty_input / no_row_survives). C09.large: 100..6000 rows (70000 thorough) derived from a seed with 3..5000 distinct keys, rows whose key is absent / a number / null / a list, three styles; oracle: the documented grouping computed by the harness from the input itself (first-seen key order, arrival order inside each list, one collection); non-trivial = >= 1000 rows".into();
+    ctx.rule = "0..40 records whose group key ranges over strings (incl. \"\", non-ASCII, escaped spellings, numeric-looking), numbers, null, true, [], {} and absent x upstream split/filter/select/unique/sort/skip/take x json (3 styles) or text output; oracle: exactly one output row, equal to the documented grouping (first-seen string keys, arrival order, non-string/absent dropped) of the rows the same run prints without --group-by/--merge. non-trivial (group-by) = >= 2 distinct string keys, a repeated key and a dropped row; (merge) = >= 2 rows behind at least one upstream stage; empty inputs are generated explicitly (class empty_input / no_row_survives). C09.large: 100..6000 rows (70000 thorough) derived from a seed with 3..5000 distinct keys, rows whose key is absent / a number / null / a list, keys drawn independently or in runs of consecutive equal keys (lengths 1, 2, 3, 511..513, 1023..1025, random), three styles; oracle: the documented grouping computed by the harness from the input itself (first-seen key order, arrival order inside each list, one collection); non-trivial = >= 1000 rows".into();
     ctx.assumptions = vec!["the ungrouped run of the same pipeline defines 'the surviving rows' (metamorphic); the key is read from the printed row's g member".into()];
     C09Group.run(ctx);
     C09Large.run(ctx);
